@@ -20,6 +20,7 @@ import OFV.Proofs.C10Filter
 import OFV.Proofs.C10Sum
 import OFV.Proofs.C10Expect
 import OFV.Proofs.C10Su2
+import OFV.Proofs.C10Su2b
 
 namespace OFV.C10
 open OFV.Model OFV.Model.C10 OFV.Spec OFV.Spec.C10
@@ -219,6 +220,15 @@ theorem s_plus_s_minus_formula (sites t s : Nat) :
     melF (sMinus 0 sites) t s =
       melF ((List.range sites).map fun i => ([(downIndex i, 1), (upIndex i, 0)], (1 : GQ))) t s :=
   ladder_formulas sites t s
+
+/-- **`[S^z, S^±] = ±S^±`** for the Model operators, every number of sites: `sz_operator` is diagonal with eigenvalue
+`szEig n s = (#up - #down)/2`, and `(σ(t) - σ(s)) ⟨t|S^+|s⟩ = ⟨t|S^+|s⟩`, `(σ(t) - σ(s)) ⟨t|S^-|s⟩ = -⟨t|S^-|s⟩` for all
+basis states (the matrix elements of the commutators, as `S^z` is diagonal): `S^+` raises and `S^-` lowers `S^z` by one. -/
+theorem sz_ladder_commutators (n t s : Nat) :
+    (melF (Model.C10.sz 0 n) t s = if t = s then szEig n s else 0) ∧
+    (szEig n t - szEig n s) * melF (sPlus 0 n) t s = melF (sPlus 0 n) t s ∧
+    (szEig n t - szEig n s) * melF (sMinus 0 n) t s = -melF (sMinus 0 n) t s :=
+  ⟨melF_sz_eig n t s, sz_splus_comm n t s, sz_sminus_comm n t s⟩
 
 /-- `s_squared_operator = S^- S^+ + S^z (S^z + 1)` as an operator, for every number of sites: its matrix element is
 the composition (right factor first; `Sem.sumF b s W` applies the terms of `b` to `|s⟩` with the Spec action and
